@@ -688,7 +688,15 @@ def rule_sticky_flags_(ctx: Ctx, rep: Report) -> None:
     rule_sticky_flags(ctx, rep, "C19.sticky_flags", ('btclib.',))
 
 
+def rule_nested_validated_(ctx: Ctx, rep: Report) -> None:
+    """C19.nested_validated: assert_valid validates every nested wire object (see sigcommon.rule_nested_validated)."""
+    from rules.sigcommon import rule_nested_validated
+    rule_nested_validated(ctx, rep, "C19.nested_validated", ('btclib.',), 25)
+
+
 RULES = [
+    ("C19.nested_validated", rule_nested_validated_),
+
     ("C19.sticky_flags", rule_sticky_flags_),
     ("C19.empty_element_index", rule_empty_element_index),
     ("C19.loose_to_strict", rule_loose_to_strict_),
